@@ -130,7 +130,8 @@ func corpus() []caseSpec {
 		{ops: []op{{"add", 1, v(1, 8)}, {"add", 2, v(2, 8)}}, commit: true},
 		{ops: []op{{"upd", 2, v(3, 9)}}, commit: true},
 	}})
-	// (3) interior removal hands the successor to the tracker: slot 2, keys 1..5 make a 2-level tree
+	// (3) interior removal: slot 2, keys 1..5 make a 2-level tree. Before /repo a8e6b837 the successor was handed to the
+	// tracker and the second and third commit were skipped (C19-F3, now fixed: must read back right)
 	for _, pl := range []persistx.Placement{inn, sep} {
 		out = append(out, caseSpec{label: "interior-remove", pl: pl, slot: 2, txns: []txn{
 			{ops: []op{{"add", 10, v(1, 8)}, {"add", 20, v(2, 8)}, {"add", 30, v(3, 8)}, {"add", 40, v(4, 8)}, {"add", 50, v(5, 8)}}, commit: true},
@@ -142,7 +143,7 @@ func corpus() []caseSpec {
 	// C19_interior_remove_harmless_when_active): update of a key added by the same transaction (value stays inline, no
 	// second blob), two updates of one key in one transaction (inline -> blob of the same id -> new id and blob), an
 	// empty transaction, a rolled-back update of a value that lives in its blob, a skipped add+remove transaction in a
-	// store that is not actively persisted; and the interior-remove history, harmless in an actively persisted store
+	// store that is not actively persisted; and the interior-remove history in an actively persisted store
 	actC, _ := persistx.PlacementByName("activeCache")
 	for _, pl := range []persistx.Placement{act, actC} {
 		out = append(out, caseSpec{label: "active-id-frame", pl: pl, slot: 4, txns: []txn{
